@@ -219,6 +219,8 @@ def run(ctx):
     npb = probe(ctx)
     from vlib import gradpattern
     ngp = gradpattern.replay(ctx, ["rootfinder", "equilibrium", "minimize"], "rootgrad")
+    from vlib import objstate
+    ngp += objstate.replay(ctx, ["rootfinder", "equilibrium", "minimize"], "rootgrad")
     from vlib import bckhistory
     ngp += bckhistory.replay(ctx, ["rootfinder", "equilibrium", "minimize"], "rootgrad", 3 if ctx.tier == "thorough" else 2)
     ctx.replayed = ne + ngp
